@@ -46,7 +46,7 @@ Pairs(f) == LET ks == SetToSeq(DOMAIN f) IN [i \in DOMAIN ks |-> <<ks[i], f[ks[i
 MapAtom(a) == IF a.k = "ref" /\ a.s \in DOMAIN m THEN [a EXCEPT !.s = m[a.s]] ELSE a
 CaseOf ==
   IF kind = "rs"
-  THEN [kind |-> "rs", toks |-> Render(e, FALSE).t, expect |-> Render(RenameTree(e, m), FALSE).t, map |-> Pairs(m),
+  THEN [kind |-> "rs", toks |-> Render(e, 0).t, expect |-> Render(RenameTree(e, m), 0).t, map |-> Pairs(m),
         count |-> 0]
   ELSE [kind |-> "text", atoms |-> e, expect |-> [i \in DOMAIN e |-> MapAtom(e[i])], map |-> Pairs(m), count |-> 0]
 Emit == stage = 1 => PrintT(<<"CASE", ToJson(CaseOf)>>)
